@@ -171,9 +171,9 @@ theorem extends_missing_error (rd : Rd) (rec : Rec) (t : Nat) (rest : List Item)
     `INCLUDE_RECURSION_COST` more depth; its errors are wrapped, never swallowed; the includer's
     block state is restored -/
 theorem performInclude_first (env : Env) (rec : Rec) (cur : Option Nat) (disc ign : Bool) (outer : Nat)
-    (missing more : List Nat) (t : Nat) (T : Template)
+    (missing : List Nat) (more : List Cand) (t : Nat) (T : Template)
     (hmiss : ∀ m ∈ missing, env[m]? = none) (hT : env[t]? = some T) (hL : T.loadErr = none) (tried : Bool) (st : St) :
-    performInclude env rec cur disc ign outer (missing ++ t :: more) tried st =
+    performInclude env rec cur disc ign outer (missing.map some ++ some t :: more) tried st =
       if outer + INCLUDE_COST + st.frames.length > LIMIT then .error [.invalidOperation]
       else
         match rec cur disc false (outer + INCLUDE_COST) T.ae T.layout
@@ -185,7 +185,7 @@ theorem performInclude_first (env : Env) (rec : Rec) (cur : Option Nat) (disc ig
                     frames := (st'.frames.take st.frames.length).setTopClosure st.frames.topClosure }) := by
   induction missing generalizing tried with
   | nil =>
-    simp only [List.nil_append, performInclude, hT, hL]
+    simp only [List.map_nil, List.nil_append, performInclude, hT, hL]
     split
     · rfl
     · cases rec cur disc false (outer + INCLUDE_COST) T.ae T.layout
@@ -195,32 +195,32 @@ theorem performInclude_first (env : Env) (rec : Rec) (cur : Option Nat) (disc ig
       | ok r => rfl
   | cons m rest ih =>
     have hm : env[m]? = none := hmiss m (by simp)
-    simp only [List.cons_append, performInclude, hm]
+    simp only [List.map_cons, List.cons_append, performInclude, hm]
     exact ih (fun x hx => hmiss x (by simp [hx])) true
 
 /-- a name that exists but cannot be loaded (does not compile, loader error) is not "missing":
     the lookup error is returned as it is, with or without `ignore missing`, whatever follows -/
 theorem performInclude_load_error (env : Env) (rec : Rec) (cur : Option Nat) (disc ign : Bool) (outer : Nat)
-    (missing more : List Nat) (t : Nat) (T : Template) (k : LoadErr)
+    (missing : List Nat) (more : List Cand) (t : Nat) (T : Template) (k : LoadErr)
     (hmiss : ∀ m ∈ missing, env[m]? = none) (hT : env[t]? = some T) (hL : T.loadErr = some k)
     (tried : Bool) (st : St) :
-    performInclude env rec cur disc ign outer (missing ++ t :: more) tried st = .error [loadErrKind t k] := by
+    performInclude env rec cur disc ign outer (missing.map some ++ some t :: more) tried st = .error [loadErrKind t k] := by
   induction missing generalizing tried with
-  | nil => simp only [List.nil_append, performInclude, hT, hL]
+  | nil => simp only [List.map_nil, List.nil_append, performInclude, hT, hL]
   | cons m rest ih =>
     have hm : env[m]? = none := hmiss m (by simp)
-    simp only [List.cons_append, performInclude, hm]
+    simp only [List.map_cons, List.cons_append, performInclude, hm]
     exact ih (fun x hx => hmiss x (by simp [hx])) true
 
 theorem performInclude_all_missing (env : Env) (rec : Rec) (cur : Option Nat) (disc ign : Bool) (outer : Nat)
     (names : List Nat) (hmiss : ∀ m ∈ names, env[m]? = none) (tried : Bool) (st : St) :
-    performInclude env rec cur disc ign outer names tried st =
+    performInclude env rec cur disc ign outer (names.map some) tried st =
       if (tried || !names.isEmpty) && !ign then .error [.templateNotFound] else .ok ([], st) := by
   induction names generalizing tried with
-  | nil => simp [performInclude]
+  | nil => simp [performInclude, notFoundRaised_eq]
   | cons m rest ih =>
     have hm : env[m]? = none := hmiss m (by simp)
-    simp only [performInclude, hm]
+    simp only [List.map_cons, performInclude, hm]
     rw [ih (fun x hx => hmiss x (by simp [hx])) true]
     simp
 
@@ -317,12 +317,14 @@ theorem lookup_assigns_other (v : Nat) (items : List Item) (fr : Frame)
       simp only [assigns]; rw [ih _ h.2]; simp [lookupVal, hw]
     | _ => simp only [assigns]; exact ih _ h.2
 
-/-- what `include [t]` into a fresh `with` frame leaves behind when `t` is a module template -/
+/-- what an include into a fresh `with` frame leaves behind when the first existing candidate
+    `t` is a module template -/
 theorem include_module (env : Env) (ctx : Cfg) (f : Nat) (cur : Option Nat) (disc : Bool) (outer : Nat)
+    (missing : List Nat) (more : List Cand) (hmiss : ∀ m ∈ missing, env[m]? = none)
     (t : Nat) (T : Template) (hT : env[t]? = some T) (hL : T.loadErr = none)
     (hs : T.layout.all Item.isAssign = true)
     (st : St) (hwf : st.frames.WF) (hd : outer + INCLUDE_COST + (st.frames.length + 1) ≤ LIMIT) :
-    ∃ o, performInclude env (evalImpl env ctx (f + 1)) cur disc false outer [t] false
+    ∃ o, performInclude env (evalImpl env ctx (f + 1)) cur disc false outer (missing.map some ++ some t :: more) false
         { st with frames := st.frames.push [[]] } =
       .ok (o, { st with frames := st.frames.push [assigns T.layout []] }) := by
   obtain ⟨o, ho⟩ := simple_steps ⟨env, ctx, cur, disc, false, outer + INCLUDE_COST, T.ae⟩ (evalImpl env ctx f)
@@ -331,7 +333,8 @@ theorem include_module (env : Env) (ctx : Cfg) (f : Nat) (cur : Option Nat) (dis
     st.frames [] rfl
   refine ⟨o, ?_⟩
   have hd' : ¬ (outer + INCLUDE_COST + (st.frames.length + 1) > LIMIT) := by omega
-  simp only [performInclude, hT, hL, evalImpl, length_push, hd', if_false, setTopClosure_push, ho,
+  rw [performInclude_first env _ cur disc false outer missing more t T hmiss hT hL false]
+  simp only [evalImpl, length_push, hd', if_false, setTopClosure_push, ho,
     take_push_self _ _ hwf, topClosure_push]
 
 theorem andThen_nil (st : St) (k : St → Except Err (List String × St × Option (List Item))) :
@@ -346,25 +349,29 @@ theorem pushFails_false_of (outer : Nat) (fs : Vars)
   simp only [pushFails, decide_eq_false_iff_not]; omega
 
 theorem importAs_step (env : Env) (ctx : Cfg) (f : Nat) (cur : Option Nat) (d0 e0 : Bool) (outer : Nat)
-    (ae : AE) (parent : Option (List Item)) (t v : Nat) (T : Template) (hT : env[t]? = some T)
+    (ae : AE) (parent : Option (List Item)) (a : Arg) (missing : List Nat) (more : List Cand)
+    (t v : Nat) (T : Template) (hc : a.cands = missing.map some ++ some t :: more)
+    (hmiss : ∀ m ∈ missing, env[m]? = none) (hT : env[t]? = some T)
     (hL : T.loadErr = none) (hs : T.layout.all Item.isAssign = true) (rest : List Item) (st : St)
     (hwf : st.frames.WF) (hd : outer + INCLUDE_COST + (st.frames.length + 1) ≤ LIMIT) :
-    stepItems ⟨env, ctx, cur, d0, e0, outer, ae⟩ (evalImpl env ctx (f + 1)) parent (.importAs t v :: rest) st =
+    stepItems ⟨env, ctx, cur, d0, e0, outer, ae⟩ (evalImpl env ctx (f + 1)) parent (.importAs a v :: rest) st =
       stepItems ⟨env, ctx, cur, d0, e0, outer, ae⟩ (evalImpl env ctx (f + 1)) parent rest
         { st with frames := store st.frames v (.module (dedupKeys (assigns T.layout []))) } := by
-  obtain ⟨o, ho⟩ := include_module env ctx f cur false outer t T hT hL hs st hwf hd
-  simp only [stepItems, pushFails_false_of outer st.frames hd, Bool.false_eq_true, if_false, ho,
+  obtain ⟨o, ho⟩ := include_module env ctx f cur false outer missing more hmiss t T hT hL hs st hwf hd
+  simp only [stepItems, choices_eq_cands, hc, pushFails_false_of outer st.frames hd, Bool.false_eq_true, if_false, ho,
     topFrame_push, take_push _ _ hwf, andThen_nil]
 
 theorem fromImport_step (env : Env) (ctx : Cfg) (f : Nat) (cur : Option Nat) (d0 e0 : Bool) (outer : Nat)
-    (ae : AE) (parent : Option (List Item)) (t name alias : Nat) (T : Template) (hT : env[t]? = some T)
+    (ae : AE) (parent : Option (List Item)) (a : Arg) (missing : List Nat) (more : List Cand)
+    (t name alias : Nat) (T : Template) (hc : a.cands = missing.map some ++ some t :: more)
+    (hmiss : ∀ m ∈ missing, env[m]? = none) (hT : env[t]? = some T)
     (hL : T.loadErr = none) (hs : T.layout.all Item.isAssign = true) (rest : List Item) (st : St)
     (hwf : st.frames.WF) (hd : outer + INCLUDE_COST + (st.frames.length + 1) ≤ LIMIT) :
-    stepItems ⟨env, ctx, cur, d0, e0, outer, ae⟩ (evalImpl env ctx (f + 1)) parent (.fromImport t name alias :: rest) st =
+    stepItems ⟨env, ctx, cur, d0, e0, outer, ae⟩ (evalImpl env ctx (f + 1)) parent (.fromImport a name alias :: rest) st =
       stepItems ⟨env, ctx, cur, d0, e0, outer, ae⟩ (evalImpl env ctx (f + 1)) parent rest
         { st with frames := store st.frames alias ((lookupVal name (assigns T.layout [])).getD .undef) } := by
-  obtain ⟨o, ho⟩ := include_module env ctx f cur true outer t T hT hL hs st hwf hd
-  simp only [stepItems, pushFails_false_of outer st.frames hd, Bool.false_eq_true, if_false, ho,
+  obtain ⟨o, ho⟩ := include_module env ctx f cur true outer missing more hmiss t T hT hL hs st hwf hd
+  simp only [stepItems, choices_eq_cands, hc, pushFails_false_of outer st.frames hd, Bool.false_eq_true, if_false, ho,
     topFrame_push, take_push _ _ hwf, andThen_nil]
 
 /-! ### lengths of the frame stack -/
@@ -488,9 +495,9 @@ structure CbFine (cbs : SpecCbs) (outer n : Nat) : Prop where
     Fine (n + 1) (cbs.list D cur disc ext outer ae items fs1)
   mac : ∀ D ae items (fs1 : Vars), fs1.length = 2 → outer + n + MACRO_COST + 2 ≤ LIMIT →
     Fine 2 (cbs.list D none false false (outer + n + MACRO_COST) ae items fs1)
-  chain : ∀ t disc ae layout fs1, (fs1.length = n ∨ fs1.length = n + 1) →
+  chain : ∀ t inh disc ae layout fs1, (fs1.length = n ∨ fs1.length = n + 1) →
     outer + INCLUDE_COST + fs1.length ≤ LIMIT →
-    Fine fs1.length (cbs.chain [t] disc (outer + INCLUDE_COST) ae layout fs1)
+    Fine fs1.length (cbs.chain [t] inh disc (outer + INCLUDE_COST) ae layout fs1)
 
 theorem pushFails_false_iff (outer : Nat) (fs : Vars) :
     pushFails outer fs = false ↔ outer + (fs.length + 1) ≤ LIMIT := by
@@ -537,16 +544,19 @@ theorem specSuper_fine {cbs : SpecCbs} {outer n : Nat} (h : CbFine cbs outer n)
     · exact fine_error (by simp)
 
 theorem specInclude_fine {cbs : SpecCbs} {outer n : Nat} (h : CbFine cbs outer n) (env : Env)
-    (disc ign : Bool) (names : List Nat) (tried : Bool) (fs : Vars)
+    (inh : Option Nat) (disc ign : Bool) (names : List Cand) (tried : Bool) (fs : Vars)
     (hfs : fs.length = n ∨ fs.length = n + 1) :
-    Fine fs.length (specInclude env cbs disc ign outer names tried fs) := by
+    Fine fs.length (specInclude env cbs inh disc ign outer names tried fs) := by
   induction names generalizing tried with
   | nil =>
     simp only [specInclude]
     split
     · exact fine_error (by simp)
     · exact fine_ok rfl
-  | cons t rest ih =>
+  | cons c rest ih =>
+    cases c with
+    | none => simp only [specInclude]; exact fine_error (by simp)
+    | some t =>
     simp only [specInclude]
     cases env[t]? with
     | none => exact ih true
@@ -559,8 +569,8 @@ theorem specInclude_fine {cbs : SpecCbs} {outer n : Nat} (h : CbFine cbs outer n
       split
       · exact fine_error (by simp)
       · rename_i hd
-        have hc := h.chain t disc T.ae T.layout (fs.setTopClosure none) (by simpa using hfs) (by simpa using hd)
-        cases hr : cbs.chain [t] disc (outer + INCLUDE_COST) T.ae T.layout (fs.setTopClosure none) with
+        have hc := h.chain t inh disc T.ae T.layout (fs.setTopClosure none) (by simpa using hfs) (by simpa using hd)
+        cases hr : cbs.chain [t] inh disc (outer + INCLUDE_COST) T.ae T.layout (fs.setTopClosure none) with
         | error e => exact fine_error (by simp [hc.1 e hr])
         | ok q =>
           obtain ⟨o, fs'⟩ := q
@@ -597,9 +607,19 @@ theorem specLoop_fine (run : Vars → SRes) (v : Nat) (vals : List String) (fl :
         | ok q => obtain ⟨o', s'⟩ := q; exact fine_ok (hr.2 o' s' hrr)
   exact key _ (fine_ok hfs)
 
+theorem aeDepth_mem (m : AE) (body items : List Item) (h : Item.autoesc m body ∈ items) :
+    aeDepthL body + 1 ≤ aeDepthL items := by
+  induction items with
+  | nil => cases h
+  | cons it rest ih =>
+    simp only [aeDepthL]
+    rcases List.mem_cons.1 h with rfl | h'
+    · simp only [aeDepth]; omega
+    · have := ih h'; omega
+
 theorem specItems_fine (env : Env) (ctx : Cfg) {cbs : SpecCbs} {outer n : Nat} (h : CbFine cbs outer n)
     (D : Nat → List (List Item)) (cur : Option (Nat × Nat)) (disc ext : Bool) (ae : AE) (items : List Item)
-    (hsame : ∀ m body, Item.autoesc m body ∈ items → body.any isAutoesc = false →
+    (hsame : ∀ m body, Item.autoesc m body ∈ items → aeDepthL body < AE_NEST_MAX →
       ∀ fs1 : Vars, fs1.length = n → Fine n (cbs.list D cur disc ext outer m body fs1))
     (fs : Vars) (hfs : fs.length = n) :
     Fine n (specItems env ctx cbs D cur disc ext outer ae items fs) := by
@@ -647,32 +667,32 @@ theorem specItems_fine (env : Env) (ctx : Cfg) {cbs : SpecCbs} {outer n : Nat} (
       split
       · exact hcont _ (fine_ok hfs)
       · split <;> exact fine_error (by simp)
-    | incl names ign =>
+    | incl a ign =>
       simp only [specItems]
-      have := specInclude_fine h env disc ign names false fs (Or.inl hfs)
+      have := specInclude_fine h env (cur.map Prod.fst) disc ign a.cands false fs (Or.inl hfs)
       rw [hfs] at this
       exact hcont _ this
-    | importAs t v =>
+    | importAs a v =>
       simp only [specItems]
       cases hpf : pushFails outer fs with
       | true => exact fine_error (by simp)
       | false =>
         simp only [Bool.false_eq_true, if_false]
-        have hi := specInclude_fine h env false false [t] false (fs.push [[]]) (Or.inr (by simp [hfs]))
-        cases hr : specInclude env cbs false false outer [t] false (fs.push [[]]) with
+        have hi := specInclude_fine h env (cur.map Prod.fst) false false a.cands false (fs.push [[]]) (Or.inr (by simp [hfs]))
+        cases hr : specInclude env cbs (cur.map Prod.fst) false false outer a.cands false (fs.push [[]]) with
         | error e => exact fine_error (hi.1 e hr)
         | ok q =>
           obtain ⟨o, fs'⟩ := q
           have hl := hi.2 o fs' hr
           exact hcont _ (fine_ok (by rw [store_length]; simp [hl, hfs]))
-    | fromImport t name alias =>
+    | fromImport a name alias =>
       simp only [specItems]
       cases hpf : pushFails outer fs with
       | true => exact fine_error (by simp)
       | false =>
         simp only [Bool.false_eq_true, if_false]
-        have hi := specInclude_fine h env true false [t] false (fs.push [[]]) (Or.inr (by simp [hfs]))
-        cases hr : specInclude env cbs true false outer [t] false (fs.push [[]]) with
+        have hi := specInclude_fine h env (cur.map Prod.fst) true false a.cands false (fs.push [[]]) (Or.inr (by simp [hfs]))
+        cases hr : specInclude env cbs (cur.map Prod.fst) true false outer a.cands false (fs.push [[]]) with
         | error e => exact fine_error (hi.1 e hr)
         | ok q =>
           obtain ⟨o, fs'⟩ := q
@@ -714,12 +734,13 @@ theorem specItems_fine (env : Env) (ctx : Cfg) {cbs : SpecCbs} {outer n : Nat} (
     | badTarget => simp only [specItems]; exact fine_error (by simp)
     | autoesc m body =>
       simp only [specItems]
-      cases hx : (body.any isExtends || body.any isAutoesc) with
+      cases hx : (body.any isExtends || decide (AE_NEST_MAX ≤ aeDepthL body)) with
       | true => simp only [if_true]; exact fine_error (by simp)
       | false =>
         simp only [Bool.false_eq_true, if_false]
-        have hb : body.any isAutoesc = false := by
-          cases h1 : body.any isAutoesc <;> simp_all
+        have hb : aeDepthL body < AE_NEST_MAX := by
+          simp only [Bool.or_eq_false_iff, decide_eq_false_iff_not] at hx
+          omega
         exact hcont _ (hsame m body (by simp) hb fs hfs)
     | text s =>
       simp only [specItems]
@@ -816,7 +837,7 @@ theorem specItems_fine (env : Env) (ctx : Cfg) {cbs : SpecCbs} {outer n : Nat} (
     sources); with a cost of 0 include cycles would not be stopped by the recursion limit -/
 theorem INCLUDE_COST_pos : 1 ≤ INCLUDE_COST := by decide
 
-theorem W_succ (E d : Nat) (h : d ≤ LIMIT) : W E d = W E (d + 1) + (E + 3) := by
+theorem W_succ (E d : Nat) (h : d ≤ LIMIT) : W E d = W E (d + 1) + (E + 3 + AE_NEST_MAX) := by
   unfold W
   have : LIMIT + 1 - d = (LIMIT + 1 - (d + 1)) + 1 := by omega
   rw [this, Nat.add_mul, Nat.one_mul]
@@ -834,17 +855,18 @@ structure Term (env : Env) (ctx : Cfg) (f : Nat) : Prop where
   list : ∀ D cur disc ext outer ae items (fs : Vars), outer + fs.length ≤ LIMIT →
     W env.length (outer + fs.length) ≤ f →
     Fine fs.length ((specAll env ctx f).list D cur disc ext outer ae items fs)
-  /-- a list without `autoescape` blocks directly in it (the body of such a block) -/
-  flat : ∀ D cur disc ext outer ae (items : List Item) (fs : Vars), items.any isAutoesc = false →
-    outer + fs.length ≤ LIMIT → W env.length (outer + fs.length + 1) + 1 ≤ f →
+  /-- a list in which `autoescape` blocks are nested at most `a` deep directly in one another
+      (the body of such a block: it runs at the same stack depth, so the fuel pays per level) -/
+  nest : ∀ (a : Nat) D cur disc ext outer ae (items : List Item) (fs : Vars), aeDepthL items ≤ a →
+    outer + fs.length ≤ LIMIT → W env.length (outer + fs.length + 1) + a + 1 ≤ f →
     Fine fs.length ((specAll env ctx f).list D cur disc ext outer ae items fs)
   body : ∀ D n k disc outer ae (fs : Vars), outer + fs.length ≤ LIMIT →
     W env.length (outer + fs.length) ≤ f →
     Fine fs.length ((specAll env ctx f).body D n k disc outer ae fs)
-  chain : ∀ (chain : List Nat) disc outer ae layout (fs : Vars), chain ≠ [] → chain.tail.Nodup →
+  chain : ∀ (chain : List Nat) inh disc outer ae layout (fs : Vars), chain ≠ [] → chain.tail.Nodup →
     (∀ x ∈ chain.tail, x < env.length) → outer + fs.length ≤ LIMIT →
-    W env.length (outer + fs.length + 1) + (env.length - chain.tail.length) + 2 ≤ f →
-    Fine fs.length ((specAll env ctx f).chain chain disc outer ae layout fs)
+    W env.length (outer + fs.length + 1) + (env.length - chain.tail.length) + 2 + AE_NEST_MAX ≤ f →
+    Fine fs.length ((specAll env ctx f).chain chain inh disc outer ae layout fs)
 
 theorem cbfine_of_term {env : Env} {ctx : Cfg} {f : Nat} (ht : Term env ctx f) (outer n : Nat)
     (hw : W env.length (outer + n + 1) ≤ f) :
@@ -860,9 +882,9 @@ theorem cbfine_of_term {env : Env} {ctx : Cfg} {f : Nat} (ht : Term env ctx f) (
     have := ht.list D none false false (outer + n + MACRO_COST) ae items fs1 (by omega)
       (Nat.le_trans (W_mono _ _ _ (by omega)) hw)
     rwa [h1] at this
-  · intro t disc ae layout fs1 h1 hd
+  · intro t inh disc ae layout fs1 h1 hd
     have hpos := INCLUDE_COST_pos
-    apply ht.chain [t] disc (outer + INCLUDE_COST) ae layout fs1 (by simp) (by simp) (by simp) hd
+    apply ht.chain [t] inh disc (outer + INCLUDE_COST) ae layout fs1 (by simp) (by simp) (by simp) hd
     have h2 : outer + n + 1 ≤ LIMIT := by omega
     have h3 := W_succ env.length (outer + n + 1) h2
     have h4 := W_mono env.length (outer + n + 1 + 1) (outer + INCLUDE_COST + fs1.length + 1) (by omega)
@@ -873,33 +895,34 @@ theorem term_zero (env : Env) (ctx : Cfg) : Term env ctx 0 := by
   refine ⟨?_, ?_, ?_, ?_⟩
   · intro D cur disc ext outer ae items fs hd hw
     have := W_pos env.length _ hd; omega
-  · intro D cur disc ext outer ae items fs _ hd hw
+  · intro a D cur disc ext outer ae items fs _ hd hw
     omega
   · intro D n k disc outer ae fs hd hw
     have := W_pos env.length _ hd; omega
-  · intro chain disc outer ae layout fs _ _ _ hd hw
+  · intro chain inh disc outer ae layout fs _ _ _ hd hw
     omega
 
 theorem term_succ (env : Env) (ctx : Cfg) (f : Nat) (ht : Term env ctx f) : Term env ctx (f + 1) := by
   have hsame : ∀ (outer : Nat) (fs : Vars), outer + fs.length ≤ LIMIT →
-      W env.length (outer + fs.length + 1) + 1 ≤ f →
-      ∀ D cur disc ext (items : List Item) m body, Item.autoesc m body ∈ items → body.any isAutoesc = false →
+      W env.length (outer + fs.length + 1) + AE_NEST_MAX ≤ f →
+      ∀ D cur disc ext (items : List Item) m body, Item.autoesc m body ∈ items → aeDepthL body < AE_NEST_MAX →
       ∀ fs1 : Vars, fs1.length = fs.length →
         Fine fs.length ((specAll env ctx f).list D cur disc ext outer m body fs1) := by
     intro outer fs hd hw D cur disc ext items m body _ hb fs1 h1
-    have := ht.flat D cur disc ext outer m body fs1 hb (by omega) (by rw [h1]; exact hw)
+    have := ht.nest (aeDepthL body) D cur disc ext outer m body fs1 (Nat.le_refl _) (by omega) (by rw [h1]; omega)
     rwa [h1] at this
   refine ⟨?_, ?_, ?_, ?_⟩
   · intro D cur disc ext outer ae items fs hd hw
     have h1 := W_succ env.length _ hd
     exact specItems_fine env ctx (cbfine_of_term ht outer fs.length (by omega)) D cur disc ext ae items
       (hsame outer fs hd (by omega) D cur disc ext items) fs rfl
-  · intro D cur disc ext outer ae items fs hflat hd hw
+  · intro a D cur disc ext outer ae items fs hnest hd hw
     exact specItems_fine env ctx (cbfine_of_term ht outer fs.length (by omega)) D cur disc ext ae items
       (by
-        intro m body hm _
-        have : items.any isAutoesc = true := List.any_eq_true.2 ⟨_, hm, rfl⟩
-        rw [hflat] at this; cases this) fs rfl
+        intro m body hm _ fs1 h1
+        have hlt := aeDepth_mem m body items hm
+        have := ht.nest (a - 1) D cur disc ext outer m body fs1 (by omega) (by omega) (by rw [h1]; omega)
+        rwa [h1] at this) fs rfl
   · intro D n k disc outer ae fs hd hw
     have h1 := W_succ env.length _ hd
     simp only [specAll]
@@ -908,11 +931,11 @@ theorem term_succ (env : Env) (ctx : Cfg) (f : Nat) (ht : Term env ctx f) : Term
     | some b =>
       exact specItems_fine env ctx (cbfine_of_term ht outer fs.length (by omega)) D _ disc false ae b
         (hsame outer fs hd (by omega) D _ disc false b) fs rfl
-  · intro chain disc outer ae layout fs hne hnd hlt hd hw
+  · intro chain inh disc outer ae layout fs hne hnd hlt hd hw
     have hcb : ∀ fs' : Vars, fs'.length = fs.length → CbFine (specAll env ctx f) outer fs'.length := by
       intro fs' h'; rw [h']; exact cbfine_of_term ht outer fs.length (by omega)
     have hsm : ∀ (fs' : Vars), fs'.length = fs.length → ∀ D cur disc ext (items : List Item) m body,
-        Item.autoesc m body ∈ items → body.any isAutoesc = false →
+        Item.autoesc m body ∈ items → aeDepthL body < AE_NEST_MAX →
         ∀ fs1 : Vars, fs1.length = fs'.length →
           Fine fs'.length ((specAll env ctx f).list D cur disc ext outer m body fs1) := by
       intro fs' h'
@@ -920,14 +943,14 @@ theorem term_succ (env : Env) (ctx : Cfg) (f : Nat) (ht : Term env ctx f) : Term
     simp only [specAll, specChain]
     cases hs : splitExtends layout with
     | none =>
-      exact specItems_fine env ctx (hcb fs rfl) _ none disc false ae layout
-        (hsm fs rfl _ none disc false layout) fs rfl
+      exact specItems_fine env ctx (hcb fs rfl) _ _ disc false ae layout
+        (hsm fs rfl _ _ disc false layout) fs rfl
     | some r =>
       obtain ⟨pre, t, post⟩ := r
       simp only []
-      have hpre := specItems_fine env ctx (hcb fs rfl) (defs env chain) none disc false ae pre
-        (hsm fs rfl _ none disc false pre) fs rfl
-      cases hr1 : specItems env ctx (specAll env ctx f) (defs env chain) none disc false outer ae pre fs with
+      have hpre := specItems_fine env ctx (hcb fs rfl) (defs env chain) (inh.map (fun n => (n, 0))) disc false ae pre
+        (hsm fs rfl _ _ disc false pre) fs rfl
+      cases hr1 : specItems env ctx (specAll env ctx f) (defs env chain) (inh.map (fun n => (n, 0))) disc false outer ae pre fs with
       | error e => exact fine_error (hpre.1 e hr1)
       | ok q1 =>
         obtain ⟨o, fs1⟩ := q1
@@ -944,9 +967,9 @@ theorem term_succ (env : Env) (ctx : Cfg) (f : Nat) (ht : Term env ctx f) : Term
             | some kk => exact fine_error (by cases kk <;> simp [loadErrKind])
             | none =>
             simp only []
-            have hpost := specItems_fine env ctx (hcb fs1 hl1) (defs env (chain ++ [t])) none true true ae post
-              (hsm fs1 hl1 _ none true true post) fs1 rfl
-            cases hr2 : specItems env ctx (specAll env ctx f) (defs env (chain ++ [t])) none true true outer ae post fs1 with
+            have hpost := specItems_fine env ctx (hcb fs1 hl1) (defs env (chain ++ [t])) (inh.map (fun n => (n, 0))) true true ae post
+              (hsm fs1 hl1 _ _ true true post) fs1 rfl
+            cases hr2 : specItems env ctx (specAll env ctx f) (defs env (chain ++ [t])) (inh.map (fun n => (n, 0))) true true outer ae post fs1 with
             | error e => exact fine_error (hpost.1 e hr2)
             | ok q2 =>
               obtain ⟨o2, fs2⟩ := q2
@@ -964,7 +987,7 @@ theorem term_succ (env : Env) (ctx : Cfg) (f : Nat) (ht : Term env ctx f) : Term
                 cases chain with
                 | nil => exact absurd rfl hne
                 | cons c cs => rfl
-              have hc := ht.chain (chain ++ [t]) disc outer ae T.layout fs2 (by simp)
+              have hc := ht.chain (chain ++ [t]) inh disc outer ae T.layout fs2 (by simp)
                 (by rw [htail]; exact List.nodup_append.2 ⟨hnd, by simp, by
                   intro a ha b hb; simp at hb; subst hb; intro e; exact hmem (e ▸ ha)⟩)
                 (by rw [htail]; intro x hx'; rcases List.mem_append.1 hx' with h | h
@@ -972,7 +995,7 @@ theorem term_succ (env : Env) (ctx : Cfg) (f : Nat) (ht : Term env ctx f) : Term
                     · simp at h; omega)
                 (by omega)
                 (by rw [htail, List.length_append, List.length_singleton, hl2, hl1]; omega)
-              cases hr3 : (specAll env ctx f).chain (chain ++ [t]) disc outer ae T.layout fs2 with
+              cases hr3 : (specAll env ctx f).chain (chain ++ [t]) inh disc outer ae T.layout fs2 with
               | error e => exact fine_error (hc.1 e hr3)
               | ok q3 =>
                 obtain ⟨o3, fs3⟩ := q3
@@ -1038,8 +1061,8 @@ theorem specItems_texts (env : Env) (ctx : Cfg) (cbs : SpecCbs) (D : Nat → Lis
     | _ => simp [Item.isText] at h
 
 theorem specItems_post (env : Env) (ctx : Cfg) (cbs : SpecCbs) (D : Nat → List (List Item))
-    (outer : Nat) (ae : AE) (post : List Item) (h : post.all Item.isPost = true) (fs : Vars) :
-    specItems env ctx cbs D none true true outer ae post fs =
+    (cur : Option (Nat × Nat)) (outer : Nat) (ae : AE) (post : List Item) (h : post.all Item.isPost = true) (fs : Vars) :
+    specItems env ctx cbs D cur true true outer ae post fs =
       if hasExecExtends post then .error [.invalidOperation] else .ok ([], fs) := by
   induction post with
   | nil => simp [specItems, hasExecExtends]
@@ -1069,17 +1092,17 @@ theorem specItems_post (env : Env) (ctx : Cfg) (cbs : SpecCbs) (D : Nat → List
     template activations -/
 theorem cycle_detected_spec (env : Env) (ctx : Cfg)
     (hall : ∀ T ∈ env, extendsAfterText T.layout = true) (hload : ∀ T ∈ env, T.loadErr = none) :
-    ∀ d f chain disc outer ae layout fs, chain ≠ [] → chain.tail.Nodup → (∀ x ∈ chain.tail, x < env.length) →
+    ∀ d f chain inh disc outer ae layout fs, chain ≠ [] → chain.tail.Nodup → (∀ x ∈ chain.tail, x < env.length) →
       env.length - chain.tail.length ≤ d → d + 1 ≤ f → extendsAfterText layout = true →
-      (specAll env ctx f).chain chain disc outer ae layout fs = .error [.invalidOperation] ∨
-        (specAll env ctx f).chain chain disc outer ae layout fs = .error [.templateNotFound] := by
+      (specAll env ctx f).chain chain inh disc outer ae layout fs = .error [.invalidOperation] ∨
+        (specAll env ctx f).chain chain inh disc outer ae layout fs = .error [.templateNotFound] := by
   intro d
   induction d with
   | zero =>
-    intro f chain disc outer ae layout fs hne hnd hlt hd hf hl
+    intro f chain inh disc outer ae layout fs hne hnd hlt hd hf hl
     obtain ⟨f', rfl⟩ : ∃ f', f = f' + 1 := ⟨f - 1, by omega⟩
     obtain ⟨pre, t, post, hs, hpre, hpost⟩ := extendsAfterText_split layout hl
-    obtain ⟨o, ho⟩ := specItems_texts env ctx (specAll env ctx f') (defs env chain) none disc false outer ae
+    obtain ⟨o, ho⟩ := specItems_texts env ctx (specAll env ctx f') (defs env chain) (inh.map (fun n => (n, 0))) disc false outer ae
       pre [] hpre fs
     simp only [List.append_nil, specItems] at ho
     simp only [specAll, specChain, hs, ho]
@@ -1095,10 +1118,10 @@ theorem cycle_detected_spec (env : Env) (ctx : Cfg)
           · rw [List.getElem?_eq_none h] at hT; cases hT
         exact absurd (nodup_full env.length chain.tail hnd hlt (by omega) t hlt') hmem
   | succ d ih =>
-    intro f chain disc outer ae layout fs hne hnd hlt hd hf hl
+    intro f chain inh disc outer ae layout fs hne hnd hlt hd hf hl
     obtain ⟨f', rfl⟩ : ∃ f', f = f' + 1 := ⟨f - 1, by omega⟩
     obtain ⟨pre, t, post, hs, hpre, hpost⟩ := extendsAfterText_split layout hl
-    obtain ⟨o, ho⟩ := specItems_texts env ctx (specAll env ctx f') (defs env chain) none disc false outer ae
+    obtain ⟨o, ho⟩ := specItems_texts env ctx (specAll env ctx f') (defs env chain) (inh.map (fun n => (n, 0))) disc false outer ae
       pre [] hpre fs
     simp only [List.append_nil, specItems] at ho
     simp only [specAll, specChain, hs, ho]
@@ -1108,7 +1131,7 @@ theorem cycle_detected_spec (env : Env) (ctx : Cfg)
       cases hT : env[t]? with
       | none => simp
       | some T =>
-        simp only [hload T (List.mem_of_getElem? hT), specItems_post env ctx _ _ outer ae post hpost]
+        simp only [hload T (List.mem_of_getElem? hT), specItems_post env ctx _ _ _ outer ae post hpost]
         by_cases hx : hasExecExtends post = true
         · simp [hx]
         · have hx' : hasExecExtends post = false := by simpa using hx
@@ -1121,7 +1144,7 @@ theorem cycle_detected_spec (env : Env) (ctx : Cfg)
             cases chain with
             | nil => exact absurd rfl hne
             | cons c cs => rfl
-          have := ih f' (chain ++ [t]) disc outer ae T.layout fs (by simp)
+          have := ih f' (chain ++ [t]) inh disc outer ae T.layout fs (by simp)
             (by rw [htail]; exact List.nodup_append.2 ⟨hnd, by simp, by
               intro a ha b hb; simp at hb; subst hb; intro e; exact hmem (e ▸ ha)⟩)
             (by rw [htail]; intro x hx'; rcases List.mem_append.1 hx' with h | h
@@ -1134,12 +1157,12 @@ theorem cycle_detected_spec (env : Env) (ctx : Cfg)
 /-- text, then an (unconditional) include of one existing template -/
 def includesAfterText (env : Env) : List Item → Bool
   | [] => false
-  | .incl [t] _ :: _ => decide (t < env.length)
+  | .incl (.single (some t)) _ :: _ => decide (t < env.length)
   | .text _ :: rest => includesAfterText env rest
   | _ => false
 
 theorem includesAfterText_split (env : Env) (layout : List Item) (h : includesAfterText env layout = true) :
-    ∃ pre t ign rest, layout = pre ++ .incl [t] ign :: rest ∧ pre.all Item.isText = true ∧ t < env.length := by
+    ∃ pre t ign rest, layout = pre ++ .incl (.single (some t)) ign :: rest ∧ pre.all Item.isText = true ∧ t < env.length := by
   induction layout with
   | nil => simp [includesAfterText] at h
   | cons it rest ih =>
@@ -1147,11 +1170,11 @@ theorem includesAfterText_split (env : Env) (layout : List Item) (h : includesAf
     | text s =>
       obtain ⟨pre, t, ign, r, h1, h2, h3⟩ := ih (by simpa [includesAfterText] using h)
       exact ⟨.text s :: pre, t, ign, r, by rw [h1]; rfl, by simp [Item.isText, h2], h3⟩
-    | incl names ign =>
-      match names, h with
-      | [t], h => exact ⟨[], t, ign, rest, rfl, rfl, by simpa [includesAfterText] using h⟩
-      | [], h => simp [includesAfterText] at h
-      | _ :: _ :: _, h => simp [includesAfterText] at h
+    | incl a ign =>
+      match a, h with
+      | .single (some t), h => exact ⟨[], t, ign, rest, rfl, rfl, by simpa [includesAfterText] using h⟩
+      | .single none, h => simp [includesAfterText] at h
+      | .object _ _, h => simp [includesAfterText] at h
     | _ => simp [includesAfterText] at h
 
 theorem split_after_texts (pre : List Item) (x : Item) (rest : List Item)
@@ -1185,20 +1208,20 @@ def IncErr (e : Err) : Prop :=
   ∃ j k, e = List.replicate j Kind.badInclude ++ [k] ∧ (k = Kind.invalidOperation ∨ k = Kind.recursion)
 
 theorem include_items_err (env : Env) (ctx : Cfg) (cbs : SpecCbs)
-    (hcb : ∀ t, t < env.length → ∀ T, env[t]? = some T → ∀ disc outer ae fs,
-      ∃ e, cbs.chain [t] disc outer ae T.layout fs = .error e ∧ IncErr e)
+    (hcb : ∀ t, t < env.length → ∀ T, env[t]? = some T → ∀ inh disc outer ae fs,
+      ∃ e, cbs.chain [t] inh disc outer ae T.layout fs = .error e ∧ IncErr e)
     (D : Nat → List (List Item)) (cur : Option (Nat × Nat)) (disc ext : Bool) (outer : Nat) (ae : AE)
     (pre : List Item) (t : Nat) (ign : Bool) (more : List Item)
     (hpre : pre.all Item.isText = true) (ht : t < env.length) (hload : ∀ T ∈ env, T.loadErr = none)
     (fs : Vars) :
-    ∃ e, specItems env ctx cbs D cur disc ext outer ae (pre ++ .incl [t] ign :: more) fs = .error e ∧ IncErr e := by
-  obtain ⟨o, ho⟩ := specItems_texts env ctx cbs D cur disc ext outer ae pre (.incl [t] ign :: more) hpre fs
+    ∃ e, specItems env ctx cbs D cur disc ext outer ae (pre ++ .incl (.single (some t)) ign :: more) fs = .error e ∧ IncErr e := by
+  obtain ⟨o, ho⟩ := specItems_texts env ctx cbs D cur disc ext outer ae pre (.incl (.single (some t)) ign :: more) hpre fs
   rw [ho]
   have hT : env[t]? = some env[t] := List.getElem?_eq_getElem ht
-  simp only [specItems, specInclude, hT, hload _ (List.getElem_mem ht)]
+  simp only [specItems, Arg.cands, specInclude, hT, hload _ (List.getElem_mem ht)]
   by_cases hd : outer + INCLUDE_COST + fs.length > LIMIT
   · exact ⟨[.invalidOperation], by simp [hd], 0, .invalidOperation, rfl, Or.inl rfl⟩
-  · obtain ⟨e, he, j, k, hjk, hk⟩ := hcb t ht _ hT disc (outer + INCLUDE_COST) env[t].ae (fs.setTopClosure none)
+  · obtain ⟨e, he, j, k, hjk, hk⟩ := hcb t ht _ hT (cur.map Prod.fst) disc (outer + INCLUDE_COST) env[t].ae (fs.setTopClosure none)
     refine ⟨.badInclude :: e, by simp [hd, he], j + 1, k, ?_, hk⟩
     rw [hjk]; rfl
 
@@ -1206,23 +1229,23 @@ theorem include_items_err (env : Env) (ctx : Cfg) (cbs : SpecCbs)
     is an error for every fuel, of the shape `BadInclude … BadInclude` around the limit error -/
 theorem include_cycle_spec (env : Env) (ctx : Cfg)
     (hall : ∀ T ∈ env, includesAfterText env T.layout = true) (hload : ∀ T ∈ env, T.loadErr = none) :
-    ∀ f t, t < env.length → ∀ T, env[t]? = some T → ∀ disc outer ae fs,
-      ∃ e, (specAll env ctx f).chain [t] disc outer ae T.layout fs = .error e ∧ IncErr e := by
+    ∀ f t, t < env.length → ∀ T, env[t]? = some T → ∀ inh disc outer ae fs,
+      ∃ e, (specAll env ctx f).chain [t] inh disc outer ae T.layout fs = .error e ∧ IncErr e := by
   intro f
   induction f with
   | zero =>
-    intro t _ T _ disc outer ae fs
+    intro t _ T _ inh disc outer ae fs
     exact ⟨[.recursion], rfl, 0, .recursion, rfl, Or.inr rfl⟩
   | succ f ih =>
-    intro t ht T hT disc outer ae fs
+    intro t ht T hT inh disc outer ae fs
     obtain ⟨pre, t', ign, rest, hl, hpre, ht'⟩ := includesAfterText_split env T.layout (hall T (List.mem_of_getElem? hT))
     simp only [specAll, specChain]
     rw [hl]
-    rcases split_after_texts pre (.incl [t'] ign) rest hpre rfl with hs | ⟨rest', tx, post, hs⟩
+    rcases split_after_texts pre (.incl (.single (some t')) ign) rest hpre rfl with hs | ⟨rest', tx, post, hs⟩
     · rw [hs]
-      exact include_items_err env ctx _ ih _ none disc false outer ae pre t' ign rest hpre ht' hload fs
+      exact include_items_err env ctx _ ih _ _ disc false outer ae pre t' ign rest hpre ht' hload fs
     · rw [hs]
-      obtain ⟨e, he, hie⟩ := include_items_err env ctx _ ih (defs env [t]) none disc false outer ae pre t' ign rest' hpre ht' hload fs
+      obtain ⟨e, he, hie⟩ := include_items_err env ctx _ ih (defs env [t]) (inh.map (fun n => (n, 0))) disc false outer ae pre t' ign rest' hpre ht' hload fs
       exact ⟨e, by simp only [he], hie⟩
 
 /-! ### import of a template that extends another one -/
@@ -1267,31 +1290,31 @@ theorem splitExtends_assign_some (pre post : List Item) (p : Nat) (h : pre.all I
 /-- the spec's include of a child template `t = pre ++ [extends p] ++ post` whose statements
     (and those of its parent) are top-level assignments: the new frame collects the child's
     assignments in front of *and behind* the `extends` tag, then the parent's -/
-theorem spec_include_extending (env : Env) (ctx : Cfg) (f : Nat) (disc : Bool) (outer : Nat)
+theorem spec_include_extending (env : Env) (ctx : Cfg) (f : Nat) (inh : Option Nat) (disc : Bool) (outer : Nat)
     (t p : Nat) (T P : Template) (pre post : List Item)
     (hT : env[t]? = some T) (hP : env[p]? = some P) (hLT : T.loadErr = none) (hLP : P.loadErr = none)
     (hl : T.layout = pre ++ .extends true p :: post)
     (hpre : pre.all Item.isAssign = true) (hpost : post.all Item.isAssign = true)
     (hpl : P.layout.all Item.isAssign = true) (fs : Vars) (hwf : fs.WF)
     (hd : outer + INCLUDE_COST + (fs.length + 1) ≤ LIMIT) :
-    ∃ o, specInclude env (specAll env ctx (f + 2)) disc false outer [t] false (fs.push [[]]) =
+    ∃ o, specInclude env (specAll env ctx (f + 2)) inh disc false outer [some t] false (fs.push [[]]) =
       .ok (o, fs.push [assigns P.layout (assigns post (assigns pre []))]) := by
   have hd' : ¬ (outer + INCLUDE_COST + (fs.push [[]]).length > LIMIT) := by simp; omega
-  obtain ⟨o1, h1⟩ := spec_simple_steps env ctx (specAll env ctx f.succ) (defs env [t]) none disc false
+  obtain ⟨o1, h1⟩ := spec_simple_steps env ctx (specAll env ctx f.succ) (defs env [t]) (inh.map (fun n => (n, 0))) disc false
     (outer + INCLUDE_COST) T.ae pre hpre fs []
-  obtain ⟨o2, h2⟩ := spec_simple_steps env ctx (specAll env ctx f.succ) (defs env ([t] ++ [p])) none true true
+  obtain ⟨o2, h2⟩ := spec_simple_steps env ctx (specAll env ctx f.succ) (defs env ([t] ++ [p])) (inh.map (fun n => (n, 0))) true true
     (outer + INCLUDE_COST) T.ae post hpost fs (assigns pre [])
-  obtain ⟨o3, h3⟩ := spec_simple_steps env ctx (specAll env ctx f) (defs env ([t] ++ [p])) none disc false
+  obtain ⟨o3, h3⟩ := spec_simple_steps env ctx (specAll env ctx f) (defs env ([t] ++ [p])) (inh.map (fun n => (n, 0))) disc false
     (outer + INCLUDE_COST) T.ae P.layout hpl fs (assigns post (assigns pre []))
   refine ⟨o1 ++ o2 ++ o3, ?_⟩
   simp only [specInclude, hT, hLT, hd', if_false, setTopClosure_push, topClosure_push]
-  have hchain : (specAll env ctx (f + 2)).chain [t] disc (outer + INCLUDE_COST) T.ae T.layout (fs.push [[]]) =
+  have hchain : (specAll env ctx (f + 2)).chain [t] inh disc (outer + INCLUDE_COST) T.ae T.layout (fs.push [[]]) =
       .ok (o1 ++ o2 ++ o3, fs.push [assigns P.layout (assigns post (assigns pre []))]) := by
-    have e1 : (specAll env ctx (f + 2)).chain [t] disc (outer + INCLUDE_COST) T.ae T.layout (fs.push [[]]) =
-        specChain env ctx (specAll env ctx (f + 1)) [t] disc (outer + INCLUDE_COST) T.ae T.layout (fs.push [[]]) := rfl
-    have e2 : (specAll env ctx (f + 1)).chain ([t] ++ [p]) disc (outer + INCLUDE_COST) T.ae P.layout
+    have e1 : (specAll env ctx (f + 2)).chain [t] inh disc (outer + INCLUDE_COST) T.ae T.layout (fs.push [[]]) =
+        specChain env ctx (specAll env ctx (f + 1)) [t] inh disc (outer + INCLUDE_COST) T.ae T.layout (fs.push [[]]) := rfl
+    have e2 : (specAll env ctx (f + 1)).chain ([t] ++ [p]) inh disc (outer + INCLUDE_COST) T.ae P.layout
           (fs.push [assigns post (assigns pre [])]) =
-        specChain env ctx (specAll env ctx f) ([t] ++ [p]) disc (outer + INCLUDE_COST) T.ae P.layout
+        specChain env ctx (specAll env ctx f) ([t] ++ [p]) inh disc (outer + INCLUDE_COST) T.ae P.layout
           (fs.push [assigns post (assigns pre [])]) := rfl
     rw [e1]
     simp only [specChain, hl, splitExtends_assign_some pre post p hpre, h1, List.tail_cons,
@@ -1301,20 +1324,20 @@ theorem spec_include_extending (env : Env) (ctx : Cfg) (f : Nat) (disc : Bool) (
 
 theorem importAs_extending_step (env : Env) (ctx : Cfg) (henv : EnvOK env) (f : Nat)
     (cur : Option Nat) (d0 e0 : Bool) (outer : Nat) (ae : AE) (parent : Option (List Item))
-    (t p v : Nat) (T P : Template) (pre post : List Item)
+    (a : Arg) (t p v : Nat) (T P : Template) (pre post : List Item) (hc : a.cands = [some t])
     (hT : env[t]? = some T) (hP : env[p]? = some P) (hLT : T.loadErr = none) (hLP : P.loadErr = none)
     (hl : T.layout = pre ++ .extends true p :: post)
     (hpre : pre.all Item.isAssign = true) (hpost : post.all Item.isAssign = true)
     (hpl : P.layout.all Item.isAssign = true) (rest : List Item) (st : St) (hwf : st.frames.WF)
     (hd : outer + INCLUDE_COST + (st.frames.length + 1) ≤ LIMIT) :
-    stepItems ⟨env, ctx, cur, d0, e0, outer, ae⟩ (evalImpl env ctx (f + 2)) parent (.importAs t v :: rest) st =
+    stepItems ⟨env, ctx, cur, d0, e0, outer, ae⟩ (evalImpl env ctx (f + 2)) parent (.importAs a v :: rest) st =
       stepItems ⟨env, ctx, cur, d0, e0, outer, ae⟩ (evalImpl env ctx (f + 2)) parent rest
         { st with frames := (store st.frames v
             (Val.module (dedupKeys (assigns P.layout (assigns post (assigns pre [])))))) } := by
-  obtain ⟨o, ho⟩ := spec_include_extending env ctx f false outer t p T P pre post hT hP hLT hLP hl hpre hpost hpl
+  obtain ⟨o, ho⟩ := spec_include_extending env ctx f cur false outer t p T P pre post hT hP hLT hLP hl hpre hpost hpl
     st.frames hwf hd
-  simp only [stepItems, pushFails_false_of outer st.frames hd, Bool.false_eq_true, if_false]
-  rw [include_sim (hyp_all env ctx henv (f + 2)) henv cur false false outer [t] false
+  simp only [stepItems, choices_eq_cands, hc, pushFails_false_of outer st.frames hd, Bool.false_eq_true, if_false]
+  rw [include_sim (hyp_all env ctx henv (f + 2)) henv cur false false outer [some t] false
     { st with frames := st.frames.push [[]] }]
   simp only [ho, liftS, topFrame_push, take_push _ _ hwf, andThen_nil]
 
@@ -1339,15 +1362,22 @@ theorem final_chainSt (env : Env) (ctx : Cfg) (henv : EnvOK env) :
     have hwf := WF_defs env henv chain
     have hg : Good (defs env chain) none true 0 st :=
       ⟨hst.blocks, (by intro n hn; cases hn), fun _ m _ => hst.depth m⟩
+    have hscOf : ∀ st' : St, (∀ m, st'.depth m = 0) → SuperCtx (rcur.map (fun n => (n, 0))) rcur st' := by
+      intro st' hd
+      refine ⟨by cases rcur <;> rfl, ?_⟩
+      intro n j hnj
+      cases rcur with
+      | none => cases hnj
+      | some r => cases hnj; exact ⟨hd _, fun m _ => hd m⟩
     simp only [evalImpl] at hev
     cases hs : splitExtends layout with
     | none =>
-      have hp := sim_prefix h henv _ hwf none true 0 rcur disc false outer ae none
-        (by intro n hn; cases hn) (by intro hc; cases hc) layout
-        (fun it hm => Or.inl (splitExtends_none layout hs hlay it hm)) [] st hg
-      simp only [List.append_nil, Option.map_none, Option.isSome_none, Bool.or_false, stepItems] at hp
+      have hp := sim_prefix h henv _ hwf none true 0 (rcur.map (fun n => (n, 0))) rcur disc false outer ae none
+        layout
+        (fun it hm => Or.inl (splitExtends_none layout hs hlay it hm)) [] st (hscOf st hst.depth) hg
+      simp only [List.append_nil, Option.isSome_none, Bool.or_false, stepItems] at hp
       rw [hp] at hev
-      cases hr : specItems env ctx (specAll env ctx f) (defs env chain) none disc false outer ae layout st.frames with
+      cases hr : specItems env ctx (specAll env ctx f) (defs env chain) (rcur.map (fun n => (n, 0))) disc false outer ae layout st.frames with
       | error e => rw [hr] at hev; simp [thenStepsF] at hev
       | ok r =>
         obtain ⟨o1, fs⟩ := r
@@ -1358,12 +1388,12 @@ theorem final_chainSt (env : Env) (ctx : Cfg) (henv : EnvOK env) :
     | some r =>
       obtain ⟨pre, t, post⟩ := r
       obtain ⟨hl, hpre, hpost⟩ := splitExtends_some layout pre post t hs hlay
-      have hp := sim_prefix h henv _ hwf none true 0 rcur disc false outer ae none
-        (by intro n hn; cases hn) (by intro hc; cases hc) pre
-        (fun it hm => Or.inl (hpre it hm)) (.extends true t :: post) st hg
-      simp only [Option.map_none, Option.isSome_none, Bool.or_false] at hp
+      have hp := sim_prefix h henv _ hwf none true 0 (rcur.map (fun n => (n, 0))) rcur disc false outer ae none
+        pre
+        (fun it hm => Or.inl (hpre it hm)) (.extends true t :: post) st (hscOf st hst.depth) hg
+      simp only [Option.isSome_none, Bool.or_false] at hp
       rw [hl, hp] at hev
-      cases hr1 : specItems env ctx (specAll env ctx f) (defs env chain) none disc false outer ae pre st.frames with
+      cases hr1 : specItems env ctx (specAll env ctx f) (defs env chain) (rcur.map (fun n => (n, 0))) disc false outer ae pre st.frames with
       | error e => rw [hr1] at hev; simp [thenStepsF] at hev
       | ok r1 =>
         obtain ⟨o1, fs1⟩ := r1
@@ -1398,12 +1428,16 @@ theorem final_chainSt (env : Env) (ctx : Cfg) (henv : EnvOK env) :
                 { blocks := appendBlocks st.blocks T.blocks, depth := st.depth, loaded := t :: st.loaded,
                   frames := fs1 } :=
               ⟨(hst1 fs1).blocks, (by intro n hn; cases hn), fun _ m _ => hst.depth m⟩
-            have hp2 := sim_prefix h henv _ (WF_defs env henv (chain ++ [t])) none true 0 rcur disc false outer ae
-              (some T.layout) (by intro n hn; cases hn) (by intro hc; cases hc) post
-              (fun it hm => (hpost it hm).elim Or.inl (fun hx => Or.inr ⟨rfl, hx⟩)) [] _ hg1
-            simp only [List.append_nil, Option.map_none, Option.isSome_some, Bool.or_true, stepItems] at hp2
+            have hp2 := sim_prefix h henv _ (WF_defs env henv (chain ++ [t])) none true 0 (rcur.map (fun n => (n, 0))) rcur
+              disc false outer ae
+              (some T.layout) post
+              (fun it hm => (hpost it hm).elim Or.inl (fun hx => Or.inr ⟨rfl, hx⟩)) []
+              { blocks := appendBlocks st.blocks T.blocks, depth := st.depth, loaded := t :: st.loaded, frames := fs1 }
+              (hscOf { blocks := appendBlocks st.blocks T.blocks, depth := st.depth, loaded := t :: st.loaded, frames := fs1 }
+                hst.depth) hg1
+            simp only [List.append_nil, Option.isSome_some, Bool.or_true, stepItems] at hp2
             rw [hp2] at hev
-            cases hr2 : specItems env ctx (specAll env ctx f) (defs env (chain ++ [t])) none true true outer ae post fs1 with
+            cases hr2 : specItems env ctx (specAll env ctx f) (defs env (chain ++ [t])) (rcur.map (fun n => (n, 0))) true true outer ae post fs1 with
             | error e => rw [hr2] at hev; simp [thenStepsF] at hev
             | ok r2 =>
               obtain ⟨o2, fs2⟩ := r2
@@ -1435,6 +1469,9 @@ structure Rel (H : Nat) (a b : Vars) : Prop where
   low : ∀ i, i + 1 < a.cls.length → b.cls[i]? = a.cls[i]?
   old : ∀ i, i < H → b.heap[i]? = a.heap[i]?
   grow : a.heap.length ≤ b.heap.length
+  /-- the frames below the top frame hold what they held: statements assign into the frame on
+      top only (`Context::store`), everything nested runs in frames pushed above it -/
+  below : ∀ i, i + 1 < a.stack.length → b.stack[i]? = a.stack[i]?
 
 structure Pre (H : Nat) (a : Vars) : Prop where
   qt : QT H a
@@ -1442,12 +1479,13 @@ structure Pre (H : Nat) (a : Vars) : Prop where
   wf : a.cls.length = a.stack.length
 
 theorem Rel.refl (H : Nat) (a : Vars) : Rel H a a :=
-  ⟨rfl, rfl, fun _ _ => rfl, fun _ _ => rfl, Nat.le_refl _⟩
+  ⟨rfl, rfl, fun _ _ => rfl, fun _ _ => rfl, Nat.le_refl _, fun _ _ => rfl⟩
 
 theorem Rel.trans {H : Nat} {a b c : Vars} (h1 : Rel H a b) (h2 : Rel H b c) : Rel H a c :=
   ⟨h2.len.trans h1.len, h2.clen.trans h1.clen,
    fun i hi => (h2.low i (by rw [h1.clen]; exact hi)).trans (h1.low i hi),
-   fun i hi => (h2.old i hi).trans (h1.old i hi), Nat.le_trans h1.grow h2.grow⟩
+   fun i hi => (h2.old i hi).trans (h1.old i hi), Nat.le_trans h1.grow h2.grow,
+   fun i hi => (h2.below i (by rw [h1.len]; exact hi)).trans (h1.below i hi)⟩
 
 theorem topClosure_eq (a : Vars) : a.topClosure = (a.cls[a.cls.length - 1]?).getD none := by
   unfold Vars.topClosure
@@ -1495,7 +1533,16 @@ theorem store_rel (H : Nat) (a : Vars) (v : Nat) (x : Val) (hp : Pre H a) :
     have hhl : (closureWrite a v x).length = a.heap.length := by
       unfold closureWrite
       cases a.topClosure <;> simp [modAt_length]
-    refine ⟨⟨by simp [hlen], rfl, fun _ _ => rfl, hold, by simp only []; rw [hhl]; exact Nat.le_refl _⟩, ?_, ?_, ?_⟩
+    have hst : a.stack = below.reverse ++ [top] := by
+      have := congrArg List.reverse hs; simpa using this
+    have hbelow : ∀ i, i + 1 < a.stack.length →
+        ((((v, x) :: top) :: below).reverse)[i]? = a.stack[i]? := by
+      intro i hi
+      rw [hst] at hi ⊢
+      simp only [List.length_append, List.length_reverse, List.length_singleton] at hi
+      simp only [List.reverse_cons]
+      rw [List.getElem?_append_left (by simp; omega), List.getElem?_append_left (by simp; omega)]
+    refine ⟨⟨by simp [hlen], rfl, fun _ _ => rfl, hold, by simp only []; rw [hhl]; exact Nat.le_refl _, hbelow⟩, ?_, ?_, ?_⟩
     · intro c hc; exact hp.qt c hc
     · simp only []; rw [hhl]; exact hp.hh
     · simp [hp.wf, hlen]
@@ -1535,7 +1582,7 @@ theorem stc_top_nil (a : Vars) (c : Option Nat) (h : a.cls = []) : (a.setTopClos
 
 theorem stc_rel (H : Nat) (a : Vars) (c : Option Nat) : Rel H a (a.setTopClosure c) :=
   ⟨by rw [stc_stack], stc_clen a c, fun i hi => stc_low a c i hi, fun i _ => by rw [stc_heap],
-   by rw [stc_heap]; exact Nat.le_refl _⟩
+   by rw [stc_heap]; exact Nat.le_refl _, fun i _ => by rw [stc_stack]⟩
 
 theorem stc_pre (H : Nat) (a : Vars) (c : Option Nat) (hp : Pre H a) (hc : ∀ k, c = some k → H ≤ k) :
     Pre H (a.setTopClosure c) := by
@@ -1561,13 +1608,18 @@ theorem take_back (H : Nat) (a b : Vars) (fr : Frame) (hp : Pre H a) (hr : Rel H
     simp only [Vars.push, List.map_cons, List.map_nil]
     exact List.getElem?_append_left hi
   have hrel : Rel H a (b.take a.length) := by
-    refine ⟨?_, ?_, ?_, fun i hi => hr.old i hi, hr.grow⟩
+    refine ⟨?_, ?_, ?_, fun i hi => hr.old i hi, hr.grow, ?_⟩
     · simp [Vars.take, Vars.length]; omega
     · simp [Vars.take, Vars.length]; omega
     · intro i hi
       simp only [Vars.take, Vars.length]
       rw [List.getElem?_take_of_lt (by omega)]
       exact hlow i (by omega)
+    · intro i hi
+      simp only [Vars.take, Vars.length]
+      rw [List.getElem?_take_of_lt (by omega), hr.below i (by simp [Vars.push]; omega)]
+      simp only [Vars.push]
+      exact List.getElem?_append_left (by omega)
   refine ⟨hrel, ?_, Nat.le_trans hp.hh hr.grow, by simp [Vars.take, Vars.length]; omega⟩
   intro c hc
   rw [topClosure_eq] at hc
@@ -1596,7 +1648,7 @@ theorem openClosure_rel (H : Nat) (a : Vars) (hp : Pre H a) :
     simp only []
     have hs := stc_rel H a (some a.heap.length)
     have hq := stc_pre H a (some a.heap.length) hp (by intro k hk; cases hk; exact hp.hh)
-    refine ⟨⟨hs.len, hs.clen, hs.low, ?_, ?_⟩, ⟨?_, ?_, hq.wf⟩⟩
+    refine ⟨⟨hs.len, hs.clen, hs.low, ?_, ?_, hs.below⟩, ⟨?_, ?_, hq.wf⟩⟩
     · intro i hi
       show (a.heap ++ [[]])[i]? = a.heap[i]?
       exact List.getElem?_append_left (Nat.lt_of_lt_of_le hi hp.hh)
@@ -1612,7 +1664,7 @@ theorem openClosure_rel (H : Nat) (a : Vars) (hp : Pre H a) :
 
 theorem heapmod_rel (H : Nat) (a : Vars) (c : Nat) (f : Frame → Frame) (hp : Pre H a) (hc : H ≤ c) :
     Rel H a { a with heap := modAt a.heap c f } ∧ Pre H { a with heap := modAt a.heap c f } := by
-  refine ⟨⟨rfl, rfl, fun _ _ => rfl, ?_, ?_⟩, ⟨hp.qt, ?_, hp.wf⟩⟩
+  refine ⟨⟨rfl, rfl, fun _ _ => rfl, ?_, ?_, fun _ _ => rfl⟩, ⟨hp.qt, ?_, hp.wf⟩⟩
   · intro i hi; exact modAt_get_ne _ _ _ _ (by omega)
   · show a.heap.length ≤ (modAt a.heap c f).length
     rw [modAt_length]; exact Nat.le_refl _
@@ -1703,7 +1755,7 @@ theorem varItem_keeps (H : Nat) (ctx : Cfg) (q : Bool) (ae : AE) (it : Item) (a 
 structure CbKeeps (cbs : SpecCbs) (H : Nat) : Prop where
   body : ∀ D m k disc outer ae a, Pre H a → Keeps H a (cbs.body D m k disc outer ae a)
   list : ∀ D cur disc ext outer ae items a, Pre H a → Keeps H a (cbs.list D cur disc ext outer ae items a)
-  chain : ∀ chain disc outer ae layout a, Pre H a → Keeps H a (cbs.chain chain disc outer ae layout a)
+  chain : ∀ chain inh disc outer ae layout a, Pre H a → Keeps H a (cbs.chain chain inh disc outer ae layout a)
 
 theorem keeps_take {H : Nat} {a : Vars} (hp : Pre H a) (fr : Frame) (r : SRes) :
     Keeps H (a.push [fr]) r →
@@ -1761,16 +1813,19 @@ theorem take_self (b : Vars) (n : Nat) (h1 : b.stack.length = n) (h2 : b.cls.len
 /-- the heart of the matter: an include hands the included file a frame whose closure is detached,
     so nothing the file does reaches a closure that existed before (`Rel.old` with
     `H = a.heap.length`), and the includer's closure is attached again afterwards -/
-theorem specInclude_keeps {cbs : SpecCbs} {H : Nat} (h : CbKeeps cbs H) (env : Env)
-    (disc ign : Bool) (outer : Nat) (names : List Nat) (tried : Bool) (a : Vars) (hp : Pre H a) :
-    Keeps H a (specInclude env cbs disc ign outer names tried a) := by
+theorem specInclude_keeps {cbs : SpecCbs} {H : Nat} (h : CbKeeps cbs H) (env : Env) (inh : Option Nat)
+    (disc ign : Bool) (outer : Nat) (names : List Cand) (tried : Bool) (a : Vars) (hp : Pre H a) :
+    Keeps H a (specInclude env cbs inh disc ign outer names tried a) := by
   induction names generalizing tried with
   | nil =>
     simp only [specInclude]
     split
     · exact keeps_error
     · exact keeps_ok ⟨Rel.refl H a, hp⟩
-  | cons t rest ih =>
+  | cons c rest ih =>
+    cases c with
+    | none => simp only [specInclude]; exact keeps_error
+    | some t =>
     simp only [specInclude]
     cases env[t]? with
     | none => exact ih true
@@ -1784,8 +1839,8 @@ theorem specInclude_keeps {cbs : SpecCbs} {H : Nat} (h : CbKeeps cbs H) (env : E
       · exact keeps_error
       · have h0 := stc_rel H a none
         have hp0 := stc_pre H a none hp (by intro k hk; cases hk)
-        have hc := h.chain [t] disc (outer + INCLUDE_COST) T.ae T.layout _ hp0
-        cases hr : cbs.chain [t] disc (outer + INCLUDE_COST) T.ae T.layout (a.setTopClosure none) with
+        have hc := h.chain [t] inh disc (outer + INCLUDE_COST) T.ae T.layout _ hp0
+        cases hr : cbs.chain [t] inh disc (outer + INCLUDE_COST) T.ae T.layout (a.setTopClosure none) with
         | error e => exact keeps_error
         | ok q =>
           obtain ⟨o, b⟩ := q
@@ -1798,7 +1853,15 @@ theorem specInclude_keeps {cbs : SpecCbs} {H : Nat} (h : CbKeeps cbs H) (env : E
 theorem retake (H : Nat) (a s : Vars) (x fr : Frame) (hp : Pre H a) (hr : Rel H (a.push [x]) s) :
     Rel H (a.push [x]) ((s.take a.length).push [fr]) ∧ Pre H ((s.take a.length).push [fr]) := by
   obtain ⟨h1, h2⟩ := take_back H a s x hp hr
-  refine ⟨⟨?_, ?_, ?_, ?_, ?_⟩, push_pre H _ fr h2⟩
+  refine ⟨⟨?_, ?_, ?_, ?_, ?_, ?_⟩, push_pre H _ fr h2⟩
+  rotate_left 5
+  · intro i hi
+    have hi' : i < a.stack.length := by simp [Vars.push] at hi; omega
+    rw [← hr.below i hi]
+    show ((s.stack.take a.stack.length) ++ [fr])[i]? = s.stack[i]?
+    have hsl : s.stack.length = a.stack.length + 1 := by rw [hr.len]; simp [Vars.push]
+    rw [List.getElem?_append_left (by rw [List.length_take]; omega)]
+    exact List.getElem?_take_of_lt hi'
   · simp [Vars.push]; exact h1.len
   · simp [Vars.push]; exact h1.clen
   · intro i hi
@@ -1896,27 +1959,27 @@ theorem specItems_keeps (env : Env) (ctx : Cfg) {cbs : SpecCbs} {H : Nat} (h : C
       split
       · exact hcont _ _ (keeps_ok ⟨Rel.refl H a, hp⟩)
       · split <;> exact keeps_error
-    | incl names ign =>
+    | incl arg ign =>
       simp only [specItems]
-      exact hcont _ _ (specInclude_keeps h env disc ign outer names false a hp)
-    | importAs t v =>
+      exact hcont _ _ (specInclude_keeps h env _ disc ign outer arg.cands false a hp)
+    | importAs arg v =>
       simp only [specItems]
       split
       · exact keeps_error
-      · have hi := specInclude_keeps h env false false outer [t] false _ (push_pre H a [] hp)
-        cases hr : specInclude env cbs false false outer [t] false (a.push [[]]) with
+      · have hi := specInclude_keeps h env (cur.map Prod.fst) false false outer arg.cands false _ (push_pre H a [] hp)
+        cases hr : specInclude env cbs (cur.map Prod.fst) false false outer arg.cands false (a.push [[]]) with
         | error e => exact keeps_error
         | ok q =>
           obtain ⟨o, b⟩ := q
           obtain ⟨h1, h2⟩ := take_back H a b [] hp (hi o b hr).1
           obtain ⟨h3, h4⟩ := store_rel H (b.take a.length) v (.module (dedupKeys (topFrame b))) h2
           exact hcont _ _ (keeps_ok ⟨h1.trans h3, h4⟩)
-    | fromImport t name alias =>
+    | fromImport arg name alias =>
       simp only [specItems]
       split
       · exact keeps_error
-      · have hi := specInclude_keeps h env true false outer [t] false _ (push_pre H a [] hp)
-        cases hr : specInclude env cbs true false outer [t] false (a.push [[]]) with
+      · have hi := specInclude_keeps h env (cur.map Prod.fst) true false outer arg.cands false _ (push_pre H a [] hp)
+        cases hr : specInclude env cbs (cur.map Prod.fst) true false outer arg.cands false (a.push [[]]) with
         | error e => exact keeps_error
         | ok q =>
           obtain ⟨o, b⟩ := q
@@ -2035,15 +2098,15 @@ theorem specItems_keeps (env : Env) (ctx : Cfg) {cbs : SpecCbs} {H : Nat} (h : C
         | ok q => obtain ⟨o, b⟩ := q; exact hcont _ _ hf
 
 theorem specChain_keeps (env : Env) (ctx : Cfg) {cbs : SpecCbs} {H : Nat} (h : CbKeeps cbs H)
-    (chain : List Nat) (disc : Bool) (outer : Nat) (ae : AE) (layout : List Item) (a : Vars)
-    (hp : Pre H a) : Keeps H a (specChain env ctx cbs chain disc outer ae layout a) := by
+    (chain : List Nat) (inh : Option Nat) (disc : Bool) (outer : Nat) (ae : AE) (layout : List Item) (a : Vars)
+    (hp : Pre H a) : Keeps H a (specChain env ctx cbs chain inh disc outer ae layout a) := by
   unfold specChain
   simp only []
   split
-  · exact specItems_keeps env ctx h _ none disc false outer ae layout a hp
+  · exact specItems_keeps env ctx h _ _ disc false outer ae layout a hp
   · rename_i pre t post _
-    have h1 := specItems_keeps env ctx h (defs env chain) none disc false outer ae pre a hp
-    cases hr1 : specItems env ctx cbs (defs env chain) none disc false outer ae pre a with
+    have h1 := specItems_keeps env ctx h (defs env chain) (inh.map (fun n => (n, 0))) disc false outer ae pre a hp
+    cases hr1 : specItems env ctx cbs (defs env chain) (inh.map (fun n => (n, 0))) disc false outer ae pre a with
     | error e => exact keeps_error
     | ok q =>
       obtain ⟨o, b⟩ := q
@@ -2055,16 +2118,16 @@ theorem specChain_keeps (env : Env) (ctx : Cfg) {cbs : SpecCbs} {H : Nat} (h : C
         · exact keeps_error
         · split
           · exact keeps_error
-          · have h2 := specItems_keeps env ctx h (defs env (chain ++ [t])) none true true outer ae post b p1
-            cases hr2 : specItems env ctx cbs (defs env (chain ++ [t])) none true true outer ae post b with
+          · have h2 := specItems_keeps env ctx h (defs env (chain ++ [t])) (inh.map (fun n => (n, 0))) true true outer ae post b p1
+            cases hr2 : specItems env ctx cbs (defs env (chain ++ [t])) (inh.map (fun n => (n, 0))) true true outer ae post b with
             | error e => exact keeps_error
             | ok q2 =>
               obtain ⟨o2, b2⟩ := q2
               obtain ⟨r2, p2⟩ := h2 o2 b2 hr2
               rename_i T _ _ _
-              have h3 := h.chain (chain ++ [t]) disc outer ae T.layout b2 p2
+              have h3 := h.chain (chain ++ [t]) inh disc outer ae T.layout b2 p2
               simp only []
-              cases hr3 : cbs.chain (chain ++ [t]) disc outer ae T.layout b2 with
+              cases hr3 : cbs.chain (chain ++ [t]) inh disc outer ae T.layout b2 with
               | error e => exact keeps_error
               | ok q3 =>
                 obtain ⟨o3, b3⟩ := q3
@@ -2075,7 +2138,7 @@ theorem keeps_all (env : Env) (ctx : Cfg) (H : Nat) : ∀ f, CbKeeps (specAll en
   intro f
   induction f with
   | zero => exact ⟨fun _ _ _ _ _ _ _ _ => keeps_error, fun _ _ _ _ _ _ _ _ _ => keeps_error,
-                  fun _ _ _ _ _ _ _ => keeps_error⟩
+                  fun _ _ _ _ _ _ _ _ => keeps_error⟩
   | succ f ih =>
     refine ⟨?_, ?_, ?_⟩
     · intro D m k disc outer ae a hp
@@ -2085,14 +2148,14 @@ theorem keeps_all (env : Env) (ctx : Cfg) (H : Nat) : ∀ f, CbKeeps (specAll en
       | some b => exact specItems_keeps env ctx ih D _ disc false outer ae b a hp
     · intro D cur disc ext outer ae items a hp
       exact specItems_keeps env ctx ih D cur disc ext outer ae items a hp
-    · intro chain disc outer ae layout a hp
-      exact specChain_keeps env ctx ih chain disc outer ae layout a hp
+    · intro chain inh disc outer ae layout a hp
+      exact specChain_keeps env ctx ih chain inh disc outer ae layout a hp
 
 
-theorem specInclude_apart (env : Env) (ctx : Cfg) (f : Nat) (disc ign : Bool) (outer : Nat)
-    (names : List Nat) (tried : Bool) (a b : Vars) (o : List String)
+theorem specInclude_apart (env : Env) (ctx : Cfg) (f : Nat) (inh : Option Nat) (disc ign : Bool) (outer : Nat)
+    (names : List Cand) (tried : Bool) (a b : Vars) (o : List String)
     (hwf : a.cls.length = a.stack.length)
-    (h : specInclude env (specAll env ctx f) disc ign outer names tried a = .ok (o, b)) :
+    (h : specInclude env (specAll env ctx f) inh disc ign outer names tried a = .ok (o, b)) :
     (∀ i, i < a.heap.length → b.heap[i]? = a.heap[i]?) ∧ b.topClosure = a.topClosure ∧
       b.length = a.length ∧ b.cls.length = a.cls.length ∧ a.heap.length ≤ b.heap.length := by
   induction names generalizing tried with
@@ -2101,7 +2164,10 @@ theorem specInclude_apart (env : Env) (ctx : Cfg) (f : Nat) (disc ign : Bool) (o
     split at h
     · cases h
     · cases h; exact ⟨fun _ _ => rfl, rfl, rfl, rfl, Nat.le_refl _⟩
-  | cons t rest ih =>
+  | cons c rest ih =>
+    cases c with
+    | none => simp only [specInclude] at h; cases h
+    | some t =>
     simp only [specInclude] at h
     cases hT : env[t]? with
     | none => rw [hT] at h; exact ih true h
@@ -2123,8 +2189,8 @@ theorem specInclude_apart (env : Env) (ctx : Cfg) (f : Nat) (disc ign : Bool) (o
             · rw [stc_top a none hc] at hk; cases hk
           · rw [stc_heap]; exact Nat.le_refl _
           · rw [stc_clen, stc_stack]; exact hwf
-        have hc := (keeps_all env ctx a.heap.length f).chain [t] disc (outer + INCLUDE_COST) T.ae T.layout _ hp0
-        cases hr : (specAll env ctx f).chain [t] disc (outer + INCLUDE_COST) T.ae T.layout (a.setTopClosure none) with
+        have hc := (keeps_all env ctx a.heap.length f).chain [t] inh disc (outer + INCLUDE_COST) T.ae T.layout _ hp0
+        cases hr : (specAll env ctx f).chain [t] inh disc (outer + INCLUDE_COST) T.ae T.layout (a.setTopClosure none) with
         | error e => rw [hr] at h; cases h
         | ok q =>
           obtain ⟨o', b'⟩ := q
@@ -2192,5 +2258,226 @@ theorem enclose_heap_other (ctx : Frame) (a : Vars) (w : Nat) (i : Nat) (hlt : i
     · show (modAt a.openClosure.heap c _)[i]? = a.heap[i]?
       rw [modAt_get_ne _ _ _ _ (hopen.2 c hc)]
       exact hopen.1
+
+
+/-! ### the candidate selection of an include -/
+
+/-- `perform_include` is "select, then act on the selection" -/
+theorem performInclude_select (env : Env) (rec : Rec) (cur : Option Nat) (disc ign : Bool) (outer : Nat)
+    (cands : List Cand) (tried : Bool) (st : St) :
+    performInclude env rec cur disc ign outer cands tried st =
+      match select env cands tried with
+      | .render _ T => includeTemplate rec cur disc outer T st
+      | .loadError t k => .error [loadErrKind t k]
+      | .notAString => .error [.invalidOperation]
+      | .nothing tr => if tr && !ign then .error [.templateNotFound] else .ok ([], st) := by
+  induction cands generalizing tried with
+  | nil => simp only [performInclude, select, notFoundRaised_eq]
+  | cons c rest ih =>
+    cases c with
+    | none => simp only [performInclude, select]
+    | some t =>
+      simp only [performInclude, select]
+      cases hT : env[t]? with
+      | none => exact ih true
+      | some T =>
+        simp only []
+        cases hL : T.loadErr with
+        | some k => rfl
+        | none => rfl
+
+theorem select_first (env : Env) (missing : List Nat) (more : List Cand) (t : Nat) (T : Template)
+    (hmiss : ∀ m ∈ missing, env[m]? = none) (hT : env[t]? = some T) (hL : T.loadErr = none) (tried : Bool) :
+    select env (missing.map some ++ some t :: more) tried = .render t T := by
+  induction missing generalizing tried with
+  | nil => simp only [List.map_nil, List.nil_append, select, hT, hL]
+  | cons m rest ih =>
+    have hm : env[m]? = none := hmiss m (by simp)
+    simp only [List.map_cons, List.cons_append, select, hm]
+    exact ih (fun x hx => hmiss x (by simp [hx])) true
+
+theorem select_render_inv (env : Env) (cands : List Cand) (tried : Bool) (t : Nat) (T : Template)
+    (h : select env cands tried = .render t T) :
+    ∃ (missing : List Nat) (more : List Cand), cands = missing.map some ++ some t :: more ∧
+      (∀ m ∈ missing, env[m]? = none) ∧ env[t]? = some T ∧ T.loadErr = none := by
+  induction cands generalizing tried with
+  | nil => simp [select] at h
+  | cons c rest ih =>
+    cases c with
+    | none => simp [select] at h
+    | some u =>
+      simp only [select] at h
+      cases hU : env[u]? with
+      | none =>
+        rw [hU] at h
+        obtain ⟨missing, more, h1, h2, h3, h4⟩ := ih true h
+        refine ⟨u :: missing, more, by rw [h1]; rfl, ?_, h3, h4⟩
+        intro m hm
+        rcases List.mem_cons.1 hm with rfl | hm
+        · exact hU
+        · exact h2 m hm
+      | some U =>
+        rw [hU] at h
+        simp only [] at h
+        cases hL : U.loadErr with
+        | some k => rw [hL] at h; cases h
+        | none =>
+          rw [hL] at h
+          simp only [Selection.render.injEq] at h
+          obtain ⟨rfl, rfl⟩ := h
+          exact ⟨[], rest, rfl, (by intro m hm; cases hm), hU, hL⟩
+
+theorem select_nothing_inv (env : Env) (cands : List Cand) (tried tr : Bool)
+    (h : select env cands tried = .nothing tr) :
+    (∀ c ∈ cands, ∃ m, c = some m ∧ env[m]? = none) ∧ tr = (tried || !cands.isEmpty) := by
+  induction cands generalizing tried with
+  | nil =>
+    simp only [select, Selection.nothing.injEq] at h
+    subst h
+    exact ⟨(by intro c hc; cases hc), by simp⟩
+  | cons c rest ih =>
+    cases c with
+    | none => simp [select] at h
+    | some u =>
+      simp only [select] at h
+      cases hU : env[u]? with
+      | none =>
+        rw [hU] at h
+        obtain ⟨h1, h2⟩ := ih true h
+        refine ⟨?_, by rw [h2]; simp⟩
+        intro c hc
+        rcases List.mem_cons.1 hc with rfl | hc
+        · exact ⟨u, rfl, hU⟩
+        · exact h1 c hc
+      | some U =>
+        rw [hU] at h
+        simp only [] at h
+        cases hL : U.loadErr with
+        | some k => rw [hL] at h; cases h
+        | none => rw [hL] at h; cases h
+
+theorem select_all_missing (env : Env) (cands : List Cand) (tried : Bool)
+    (h : ∀ c ∈ cands, ∃ m, c = some m ∧ env[m]? = none) :
+    select env cands tried = .nothing (tried || !cands.isEmpty) := by
+  induction cands generalizing tried with
+  | nil => simp [select]
+  | cons c rest ih =>
+    obtain ⟨m, rfl, hm⟩ := h c (by simp)
+    simp only [select, hm]
+    rw [ih true (fun c hc => h c (List.mem_cons_of_mem _ hc))]
+    simp
+
+
+/-! ### which variables an include / import reads and writes -/
+
+theorem load_setTopClosure (ctx : Frame) (fs : Vars) (c : Option Nat) (v : Nat) :
+    load ctx (fs.setTopClosure c) v = load ctx fs v := by
+  unfold load
+  rw [stc_stack]
+
+theorem stc_roundtrip (a : Vars) (h : a.WF) :
+    ((a.setTopClosure none).take a.length).setTopClosure a.topClosure = a := by
+  obtain ⟨stack, cls, heap⟩ := a
+  simp only [Vars.WF] at h
+  rcases List.eq_nil_or_concat cls with rfl | ⟨xs, x, rfl⟩
+  · have : stack = [] := List.eq_nil_of_length_eq_zero (by simpa using h.symm)
+    subst this
+    rfl
+  · have h' : stack.length = xs.length + 1 := by simpa using h.symm
+    have t1 : List.take (xs.length + 1) (xs ++ [none]) = xs ++ [(none : Option Nat)] :=
+      List.take_of_length_le (by simp)
+    have t2 : List.take (xs.length + 1) stack = stack := List.take_of_length_le (by omega)
+    simp [Vars.setTopClosure, Vars.take, Vars.topClosure, Vars.length, h', t1, t2]
+
+/-- what `{{ v }}` prints for the value a lookup found (`Emit` ⇒ `write_escaped`) -/
+def emitVarOut (cfg : Cfg) (quiet : Bool) (ae : AE) : Option Val → Except Err (List String)
+  | some (.str s) => .ok (if quiet then [] else [fmtStr ae s])
+  | some (.safe s) => .ok (if quiet then [] else [s])
+  | some (.mac name _) =>
+    match ae with
+    | .json => .ok (if quiet then [] else ["{\"name\":\"v" ++ toString name ++ "\",\"arguments\":[],\"caller\":false}"])
+    | _ => .ok (if quiet then [] else [fmtStr ae s!"<macro v{name}>"])
+  | some .undef | none =>
+    if cfg.ub.isStrict then .error [.undefinedError]
+    else match ae with
+      | .json => .ok (if quiet then [] else ["null"])
+      | _ => .ok []
+  | some _ => .error [.unsupported]
+
+theorem varItem_emitVar (cfg : Cfg) (quiet : Bool) (ae : AE) (v : Nat) (fs : Vars) :
+    varItem cfg quiet ae (.emitVar v) fs =
+      some (match emitVarOut cfg quiet ae (load cfg.rootCtx fs v) with
+        | .ok o => .ok (o, fs)
+        | .error e => .error e) := by
+  cases hl : load cfg.rootCtx fs v with
+  | none =>
+    cases hs : cfg.ub.isStrict <;> cases ae <;> cases quiet <;> simp [varItem, emitUndef, emitVarOut, hl, hs]
+  | some x =>
+    cases x <;> cases hs : cfg.ub.isStrict <;> cases ae <;> cases quiet <;>
+      simp [varItem, emitUndef, emitVarOut, hl, hs]
+
+theorem includeTemplate_emitVar (env : Env) (ctx : Cfg) (f : Nat) (cur : Option Nat) (disc : Bool) (outer : Nat)
+    (T : Template) (v : Nat) (st : St) (hl : T.layout = [.emitVar v]) (hwf : st.frames.WF)
+    (hd : outer + INCLUDE_COST + st.frames.length ≤ LIMIT) :
+    includeTemplate (evalImpl env ctx (f + 1)) cur disc outer T st =
+      match emitVarOut ctx disc T.ae (load ctx.rootCtx st.frames v) with
+      | .ok o => .ok (o, st)
+      | .error e => .error (.badInclude :: e) := by
+  have hd' : ¬ (outer + INCLUDE_COST + st.frames.length > LIMIT) := by omega
+  simp only [includeTemplate, hd', if_false, hl, evalImpl, stepItems, varItem_emitVar, load_setTopClosure,
+    Option.isSome_none, Bool.or_false]
+  cases emitVarOut ctx disc T.ae (load ctx.rootCtx st.frames v) with
+  | error e => rfl
+  | ok o =>
+    simp only [Res.andThen, List.append_nil, stc_roundtrip _ hwf]
+
+theorem pre_zero (a : Vars) (h : a.WF) : Pre 0 a :=
+  ⟨fun _ _ => Nat.zero_le _, Nat.zero_le _, h⟩
+
+/-- a successful include (on the includer's own frames) returns as many frames as it got, and the
+    frames below the current one hold what they held -/
+theorem include_frames (env : Env) (ctx : Cfg) (fuel : Nat) (henv : EnvOK env)
+    (cur : Option Nat) (disc ign : Bool) (outer : Nat) (cands : List Cand) (tried : Bool)
+    (st st' : St) (o : List String) (hwf : st.frames.WF)
+    (h : performInclude env (evalImpl env ctx fuel) cur disc ign outer cands tried st = .ok (o, st')) :
+    st'.frames.stack.length = st.frames.stack.length ∧
+      ∀ i, i + 1 < st.frames.stack.length → st'.frames.stack[i]? = st.frames.stack[i]? := by
+  rw [include_sim (hyp_all env ctx henv fuel) henv] at h
+  cases hs : specInclude env (specAll env ctx fuel) cur disc ign outer cands tried st.frames with
+  | error e => rw [hs] at h; cases h
+  | ok q =>
+    obtain ⟨o', b⟩ := q
+    rw [hs] at h
+    obtain ⟨hr, _⟩ := specInclude_keeps (keeps_all env ctx 0 fuel) env cur disc ign outer cands tried st.frames
+      (pre_zero _ hwf) o' b hs
+    simp only [liftS, Except.ok.injEq, Prod.mk.injEq] at h
+    obtain ⟨_, rfl⟩ := h
+    exact ⟨hr.len, hr.below⟩
+
+theorem push_WF (a : Vars) (fr : Frame) (h : a.WF) : (a.push [fr]).WF := by
+  simp [Vars.WF, Vars.push] at *; exact h
+
+/-- an include into a fresh frame (`import`, `from … import`): when it succeeds there is exactly
+    one frame more, and *all* of the importer's frames hold what they held -/
+theorem import_frames (env : Env) (ctx : Cfg) (fuel : Nat) (henv : EnvOK env)
+    (cur : Option Nat) (disc ign : Bool) (outer : Nat) (cands : List Cand) (tried : Bool)
+    (st st' : St) (o : List String) (hwf : st.frames.WF)
+    (h : performInclude env (evalImpl env ctx fuel) cur disc ign outer cands tried
+          { st with frames := st.frames.push [[]] } = .ok (o, st')) :
+    st'.frames.length = st.frames.length + 1 ∧
+      (st'.frames.take st.frames.length).stack = st.frames.stack := by
+  obtain ⟨h1, h2⟩ := include_frames env ctx fuel henv cur disc ign outer cands tried
+    { st with frames := st.frames.push [[]] } st' o (push_WF _ _ hwf) h
+  have hl : st'.frames.stack.length = st.frames.stack.length + 1 := by
+    rw [h1]; simp [Vars.push]
+  refine ⟨hl, ?_⟩
+  show st'.frames.stack.take st.frames.stack.length = st.frames.stack
+  apply List.ext_getElem?
+  intro i
+  by_cases hi : i < st.frames.stack.length
+  · rw [List.getElem?_take_of_lt hi, h2 i (by simp [Vars.push]; omega)]
+    simp only [Vars.push]
+    exact List.getElem?_append_left hi
+  · rw [List.getElem?_eq_none (by simp; omega), List.getElem?_eq_none (by omega)]
 
 end MJ.Blocks
